@@ -279,7 +279,10 @@ def run_script(script):
                 # stop at every grid point so that timer actions get their own observation
                 while True:
                     del fired[:]
-                    nxt = min((now() // 10000 + 1) * 10000, target)
+                    # stop 50 us past each grid point: the queue's own timer at the grid point has
+                    # then certainly fired (float noise decides which of two timers at the "same"
+                    # instant runs first)
+                    nxt = min((now() // 10000 + 1) * 10000 + 50, target)
                     if not any(t['state'] == 'armed' for t in timers):
                         nxt = target
                     rt.advance_to_us(nxt)
